@@ -1520,7 +1520,14 @@ impl CanonicalizeContext {
 					}
 				}
 				if new_children.len() == 1 {
-					mathml = as_element(new_children[0]);
+					// no scripts are left -- the base takes the place of the mmultiscripts and with it what refers to that place ('arg', 'id', ...)
+					let base = as_element(new_children[0]);
+					for attr in mathml.attributes() {
+						if base.attribute(attr.name()).is_none() {
+							base.set_attribute_value(attr.name(), attr.value());
+						}
+					}
+					mathml = base;
 				} else {
 					mathml.replace_children(new_children);
 				}
